@@ -819,9 +819,13 @@ class BackendZ3(Backend):
         sbits = z3.Z3_fpa_get_sbits(ctx, sort) - 1  # includes sign bit
 
         if op_name == "FPVal":
-            # TODO: do better than this
-            fp_mantissa = int(z3.Z3_fpa_get_numeral_significand_string(ctx, ast))
-            fp_exp = int(z3.Z3_fpa_get_numeral_exponent_string(ctx, ast, True))
+            # the significand *string* is a decimal fraction such as "1.5"; the integer accessors give the fields
+            fp_mantissa_c = ctypes.c_uint64()
+            z3.Z3_fpa_get_numeral_significand_uint64(ctx, ast, ctypes.byref(fp_mantissa_c))
+            fp_mantissa = fp_mantissa_c.value
+            fp_exp_c = ctypes.c_int64()
+            z3.Z3_fpa_get_numeral_exponent_int64(ctx, ast, ctypes.byref(fp_exp_c), True)
+            fp_exp = fp_exp_c.value
             fp_sign_c = ctypes.c_int()  # pylint: disable=no-value-for-parameter
             z3.Z3_fpa_get_numeral_sign(ctx, ast, ctypes.byref(fp_sign_c))
             fp_sign = 1 if fp_sign_c.value != 0 else 0
